@@ -162,8 +162,14 @@ func load(spec famSpec) *family {
 		}}
 	case "f06", "f07": // ciphering / integrity: same runner, separate traces (Trace_C06 / Trace_C07)
 		cs := fsec.Load(spec.Cases)
+		var arena *fsec.Arena // the payloads of all goroutines lie in one array, those of neighbours without a gap
+		var once sync.Once
 		return &family{spec.Name, len(cs), func(s *sink, g, n int) runner {
 			r := fsec.NewRunner(s)
+			if n > 1 {
+				once.Do(func() { arena = fsec.NewArena(cs, n) })
+				arena.Place(r, g)
+			}
 			return runner{func(i int) { r.Run(&cs[i]) }, r.Finish}
 		}}
 	}
